@@ -21,6 +21,7 @@ def run(ctx):
     R.rule_ctor_gap(ctx)
     R.rule_capture_anchors(ctx)
     R.rule_transparent_groups(ctx)
+    R.rule_comment_text(ctx)
     ctx.assume("of the comment capture only the anchor selection among candidate entities is analysed (capture-anchors); grouping of comment "
                "tokens, exclusion ranges and trailing/leading classification are NOT; text the "
                "lexer never hands to the parser is C11; attached text blocks (@[doc]/@[literal]) are not covered")
